@@ -1,5 +1,6 @@
-(** The enumerator of a design of fragment F0 ([Frag.frag0]): every field of
-    [make_enumerator] in closed form.  Proof file. *)
+(** The enumerator of a design of fragment F1 ([Frag.frag1]: one crossing of plain
+    factors, free plain factors, exclusions, constraints enforced by rejection):
+    every field of [make_enumerator] in closed form.  Proof file. *)
 From Coq Require Import ZArith List Bool Arith Lia.
 From SP Require Import Design.Flat Design.Layout Comb.CombModel Random.Enum Random.Frag Random.RunLemmas.
 From SP Require Comb.CombSpec Comb.PermProofs.
@@ -65,74 +66,6 @@ Proof. destruct l; cbn; [reflexivity|]. apply forallb_ones. Qed.
 Lemma fact_nat_pos k : (0 < fact_nat k)%Z.
 Proof. induction k; cbn [fact_nat]; [lia|]. lia. Qed.
 
-Section F0.
-Variable fb : flat.
-Hypothesis HF : frag0 fb = true.
-
-Local Notation c := (the_crossing fb).
-Local Notation n := (length (fl_design fb)).
-Definition f0_q : nat := length (product (map (all_levels fb) (the_crossing fb))).
-
-Record f0_facts : Prop := {
-  f0_crossings : fl_crossings fb = [c];
-  f0_sustains : fl_sustains fb = [1];
-  f0_weights : fl_weights fb = [1];
-  f0_preambles : fl_preambles fb = [0];
-  f0_alpre : fl_alignment_preamble fb = 0;
-  f0_sizes : fl_sizes fb = [f0_q];
-  f0_nodup : NoDup c;
-  f0_range : forall f, In f c -> f < n;
-  f0_exclude : fl_exclude fb = [];
-  f0_excluded_derived : fl_excluded_derived fb = [];
-  f0_act : fl_act fb = seq 0 n;
-  f0_basic : forall fd, In fd (fl_design fb) -> ff_window fd = None /\ ff_complex fd = false;
-  f0_unit : forall f lv, In f c -> In lv (levels_of fb f) -> lv_weight lv = 1;
-  f0_constraints : forall k, In k (fl_constraints fb) ->
-                   match k with FCross | FConsistency | FMinimumTrials _ | FDerivation _ _ _ => True | _ => False end;
-  f0_nonempty : forall f, f < n -> 0 < nlevels fb f
-}.
-
-Lemma f0_unpack : f0_facts.
-Proof.
-  unfold frag0 in HF.
-  apply andb_prop in HF. destruct HF as [HF0 Hne].
-  apply andb_prop in HF0. destruct HF0 as [HF1 Hsize].
-  apply andb_prop in HF1. destruct HF1 as [HF2 Hgeo].
-  apply andb_prop in HF2. destruct HF2 as [HF3 Hunit].
-  apply andb_prop in HF3. destruct HF3 as [HF4 Hbasic].
-  apply andb_prop in HF4. destruct HF4 as [HF5 Hact].
-  apply andb_prop in HF5. destruct HF5 as [HF6 Hexcl].
-  apply andb_prop in HF6. destruct HF6 as [Hcross Hcons].
-  unfold single_plain_crossing in Hcross. unfold size_matches in Hsize. unfold unit_weights in Hunit.
-  unfold plain_geometry in Hgeo. unfold no_exclusions in Hexcl.
-  unfold f0_q, the_crossing.
-  destruct (fl_crossings fb) as [|c0 [|? ?]] eqn:Ec; try discriminate.
-  destruct (fl_sustains fb) as [|[|[|?]] [|? ?]] eqn:Es; try discriminate.
-  apply andb_prop in Hcross. destruct Hcross as [Hnd Hrange].
-  apply andb_prop in Hunit. destruct Hunit as [Hw Hlv].
-  destruct (fl_weights fb) as [|[|[|?]] [|? ?]] eqn:Ew; try discriminate.
-  destruct (fl_preambles fb) as [|[|?] [|? ?]] eqn:Ep; try discriminate.
-  destruct (fl_sizes fb) as [|s0 [|? ?]] eqn:Ez; try discriminate.
-  destruct (fl_exclude fb) eqn:Ee; try discriminate.
-  destruct (fl_excluded_derived fb) eqn:Eed; try discriminate.
-  apply Nat.eqb_eq in Hgeo. apply Nat.eqb_eq in Hsize. subst s0.
-  constructor; unfold f0_q, the_crossing; rewrite ?Ec; try reflexivity; try assumption.
-  - apply nodupb_NoDup. exact Hnd.
-  - intros f Hf. rewrite forallb_forall in Hrange. apply Nat.ltb_lt. apply Hrange. exact Hf.
-  - apply nat_list_eqb_eq. exact Hact.
-  - intros fd Hfd. unfold all_basic in Hbasic. rewrite forallb_forall in Hbasic.
-    specialize (Hbasic fd Hfd). destruct (ff_window fd); [discriminate|].
-    apply negb_true_iff in Hbasic. auto.
-  - intros f lv Hf Hlvin. cbn in Hlv. rewrite andb_true_r in Hlv. rewrite forallb_forall in Hlv.
-    specialize (Hlv f Hf). rewrite forallb_forall in Hlv. apply Nat.eqb_eq. apply Hlv. exact Hlvin.
-  - intros k Hk. unfold no_rejecting_constraints in Hcons. rewrite forallb_forall in Hcons.
-    specialize (Hcons k Hk). destruct k; try discriminate; exact I.
-  - intros f Hf. unfold nonempty_levels in Hne. rewrite forallb_forall in Hne.
-    unfold nlevels, factor_at. destruct (nth_error (fl_design fb) f) as [fd|] eqn:E.
-    + apply Nat.ltb_lt. apply Hne. eapply nth_error_In. exact E.
-    + apply nth_error_None in E. lia.
-Qed.
-
 Lemma product_nonempty {A} (lss : list (list A)) : (forall l, In l lss -> l <> []) -> product lss <> [].
 Proof.
   induction lss as [|l t IH]; intros H; cbn [product]; [discriminate|].
@@ -141,14 +74,91 @@ Proof.
   destruct l as [|x l']; [contradiction|]. cbn [flat_map]. destruct (product t); [contradiction|]. discriminate.
 Qed.
 
-Lemma f0_q_pos : 0 < f0_q.
+Lemma pairs_eqb_eq a b : pairs_eqb a b = true -> a = b.
 Proof.
-  unfold f0_q. assert (H : product (map (all_levels fb) c) <> []).
-  { apply product_nonempty. intros l Hl. apply in_map_iff in Hl. destruct Hl as [f [E Hf]]. subst l.
-    unfold all_levels. pose proof (f0_nonempty f0_unpack f (f0_range f0_unpack f Hf)) as Hp.
-    destruct (nlevels fb f); [lia | discriminate]. }
-  destruct (product (map (all_levels fb) c)); [contradiction | cbn; lia].
+  revert b. induction a as [|[x1 x2] a IH]; intros [|[y1 y2] b] H; cbn in H; try discriminate; [reflexivity|].
+  apply andb_prop in H. destruct H as [H H3]. apply andb_prop in H. destruct H as [H1 H2].
+  apply Nat.eqb_eq in H1. apply Nat.eqb_eq in H2. subst. f_equal. apply IH. exact H3.
 Qed.
+
+Lemma filter_map_comm {A B} (g : A -> B) (p : B -> bool) l : filter p (map g l) = map g (filter (fun x => p (g x)) l).
+Proof. induction l as [|x t IH]; [reflexivity|]. cbn. destruct (p (g x)); cbn; rewrite IH; reflexivity. Qed.
+
+Section F0.
+Variable fb : flat.
+Hypothesis HF : frag1 fb = true.
+
+Local Notation c := (the_crossing fb).
+Local Notation n := (length (fl_design fb)).
+(** the admitted level combinations of the crossing, and the admitted levels of a factor *)
+Definition f0_cprod : list (list nat) := allowed_combos fb (the_crossing fb).
+Definition f0_q : nat := length f0_cprod.
+Definition f0_L (g : nat) : list nat := nonexcluded_levels fb g.
+
+Record f0_facts : Prop := {
+  f0_crossings : fl_crossings fb = [c];
+  f0_sustains : fl_sustains fb = [1];
+  f0_weights : fl_weights fb = [1];
+  f0_preambles : fl_preambles fb = [0];
+  f0_alpre : fl_alignment_preamble fb = 0;
+  f0_sizes : fl_sizes fb = [f0_q];
+  f0_qpos : 0 < f0_q;
+  f0_nodup : NoDup c;
+  f0_range : forall f, In f c -> f < n;
+  f0_exclude : fl_exclude fb = flat_map (fun k => match k with FExclude f l => [(f, l)] | _ => [] end) (fl_constraints fb);
+  f0_excluded_derived : fl_excluded_derived fb = [];
+  f0_act : fl_act fb = seq 0 n;
+  f0_basic : forall fd, In fd (fl_design fb) -> ff_window fd = None /\ ff_complex fd = false;
+  f0_unit : forall f lv, In f c -> In lv (levels_of fb f) -> lv_weight lv = 1;
+  f0_constraints : forall k, In k (fl_constraints fb) -> constraint_f1 fb k = true;
+  f0_nonempty : forall f, f < n -> 0 < length (f0_L f);
+  f0_trials : 0 < fl_trials fb \/ no_rejecting_constraints fb = true
+}.
+
+Lemma f0_unpack : f0_facts.
+Proof.
+  unfold frag1 in HF.
+  apply andb_prop in HF. destruct HF as [HFT HTpos].
+  apply andb_prop in HFT. destruct HFT as [HF0 Hne].
+  apply andb_prop in HF0. destruct HF0 as [HF1 Hsize].
+  apply andb_prop in HF1. destruct HF1 as [HF2 Hgeo].
+  apply andb_prop in HF2. destruct HF2 as [HF3 Hunit].
+  apply andb_prop in HF3. destruct HF3 as [HF4 Hbasic].
+  apply andb_prop in HF4. destruct HF4 as [HF5 Hact].
+  apply andb_prop in HF5. destruct HF5 as [HF6 Hexcl].
+  apply andb_prop in HF6. destruct HF6 as [Hcross Hcons].
+  unfold single_plain_crossing in Hcross. unfold size_matches1 in Hsize. unfold unit_weights in Hunit.
+  unfold plain_geometry in Hgeo. unfold exclude_consistent in Hexcl.
+  unfold f0_q, f0_cprod, the_crossing.
+  destruct (fl_crossings fb) as [|c0 [|? ?]] eqn:Ec; try discriminate.
+  destruct (fl_sustains fb) as [|[|[|?]] [|? ?]] eqn:Es; try discriminate.
+  apply andb_prop in Hcross. destruct Hcross as [Hnd Hrange].
+  apply andb_prop in Hunit. destruct Hunit as [Hw Hlv].
+  destruct (fl_weights fb) as [|[|[|?]] [|? ?]] eqn:Ew; try discriminate.
+  destruct (fl_preambles fb) as [|[|?] [|? ?]] eqn:Ep; try discriminate.
+  destruct (fl_sizes fb) as [|s0 [|? ?]] eqn:Ez; try discriminate.
+  apply andb_prop in Hexcl. destruct Hexcl as [Hex1 Hex2].
+  destruct (fl_excluded_derived fb) eqn:Eed; try discriminate.
+  apply andb_prop in Hsize. destruct Hsize as [Hsize Hpos].
+  apply Nat.eqb_eq in Hgeo. apply Nat.eqb_eq in Hsize. apply Nat.ltb_lt in Hpos. subst s0.
+  constructor; unfold f0_q, f0_cprod, the_crossing; rewrite ?Ec; try reflexivity; try assumption.
+  - apply nodupb_NoDup. exact Hnd.
+  - intros f Hf. rewrite forallb_forall in Hrange. apply Nat.ltb_lt. apply Hrange. exact Hf.
+  - apply pairs_eqb_eq. exact Hex1.
+  - apply nat_list_eqb_eq. exact Hact.
+  - intros fd Hfd. unfold all_basic in Hbasic. rewrite forallb_forall in Hbasic.
+    specialize (Hbasic fd Hfd). destruct (ff_window fd); [discriminate|].
+    apply negb_true_iff in Hbasic. auto.
+  - intros f lv Hf Hlvin. cbn in Hlv. rewrite andb_true_r in Hlv. rewrite forallb_forall in Hlv.
+    specialize (Hlv f Hf). rewrite forallb_forall in Hlv. apply Nat.eqb_eq. apply Hlv. exact Hlvin.
+  - intros k Hk. rewrite forallb_forall in Hcons. apply Hcons. exact Hk.
+  - intros f Hf. unfold free_levels_nonempty in Hne. rewrite forallb_forall in Hne.
+    apply Nat.ltb_lt. apply Hne. apply in_seq. lia.
+  - apply orb_prop in HTpos. destruct HTpos as [H | H]; [left; apply Nat.ltb_lt; exact H | right; exact H].
+Qed.
+
+Lemma f0_q_pos : 0 < f0_q.
+Proof. apply (f0_qpos f0_unpack). Qed.
 
 Lemma f0_window_none f : window_of fb f = None.
 Proof.
@@ -168,30 +178,66 @@ Proof.
   apply nth_error_In in E. apply (f0_basic f0_unpack) in E. apply E.
 Qed.
 
-
-
-Lemma f0_not_excluded di : is_excluded_combination fb di = false.
+(** a combination is excluded iff it contains a level named by an [Exclude] constraint *)
+Lemma f0_excluded_spec di : is_excluded_combination fb di = true <->
+  exists f l, In (FExclude f l) (fl_constraints fb) /\ alookup di f = Some l.
 Proof.
-  unfold is_excluded_combination. rewrite (f0_exclude f0_unpack), (f0_excluded_derived f0_unpack). reflexivity.
+  unfold is_excluded_combination. rewrite (f0_excluded_derived f0_unpack). cbn [existsb]. rewrite orb_false_r.
+  rewrite existsb_exists. rewrite (f0_exclude f0_unpack). split.
+  - intros [[f l] [Hin H]]. cbn [fst snd] in H. apply in_flat_map in Hin. destruct Hin as [k [Hk Hin]].
+    destruct k; try (destruct Hin; fail). destruct Hin as [E | []]. inversion E; subst.
+    destruct (alookup di f) as [l'|] eqn:El; [|discriminate]. apply Nat.eqb_eq in H. subst. exists f, l. auto.
+  - intros (f & l & Hk & Hl). exists (f, l). split.
+    + apply in_flat_map. exists (FExclude f l). split; [exact Hk | left; reflexivity].
+    + cbn [fst snd]. rewrite Hl. apply Nat.eqb_refl.
 Qed.
 
-Lemma f0_not_inconsistent di : is_excluded_or_inconsistent_combination fb di = false.
+Lemma f0_inconsistent_eq di : is_excluded_or_inconsistent_combination fb di = is_excluded_combination fb di.
 Proof.
-  unfold is_excluded_or_inconsistent_combination. rewrite f0_not_excluded.
+  unfold is_excluded_or_inconsistent_combination. destruct (is_excluded_combination fb di); [reflexivity|].
   apply not_true_is_false. intros H. apply existsb_exists in H. destruct H as [f [_ H]].
   rewrite f0_not_derived in H. discriminate.
 Qed.
 
-Definition f0_instances : list asg := instances_of fb c.
+Definition f0_instances : list asg := map (fun ls => combine c ls) f0_cprod.
 
 Lemma f0_crossing_instances : crossing_instances fb c = f0_instances.
 Proof.
-  unfold crossing_instances, f0_instances. apply filter_all.
-  intros x _. rewrite f0_not_inconsistent. reflexivity.
+  unfold crossing_instances, f0_instances, f0_cprod, allowed_combos, instances_of.
+  rewrite filter_map_comm. f_equal. apply filter_ext. intros ls. rewrite f0_inconsistent_eq. reflexivity.
 Qed.
 
 Lemma f0_instances_length : length f0_instances = f0_q.
-Proof. unfold f0_instances, instances_of, f0_q. rewrite map_length. reflexivity. Qed.
+Proof. unfold f0_instances, f0_q. apply map_length. Qed.
+
+Lemma f0_cprod_in_prod ls : In ls f0_cprod -> In ls (product (map (all_levels fb) c)).
+Proof. unfold f0_cprod, allowed_combos. intros H. apply filter_In in H. apply H. Qed.
+
+Lemma f0_cprod_spec ls : In ls f0_cprod <->
+  In ls (product (map (all_levels fb) c)) /\ is_excluded_combination fb (combine c ls) = false.
+Proof. unfold f0_cprod, allowed_combos. rewrite filter_In, negb_true_iff. reflexivity. Qed.
+
+Lemma f0_cprod_nodup : NoDup f0_cprod.
+Proof.
+  unfold f0_cprod, allowed_combos. apply NoDup_filter. apply product_NoDup.
+  intros l Hl. apply in_map_iff in Hl. destruct Hl as [f [E _]]. subst l. unfold all_levels. apply seq_NoDup.
+Qed.
+
+(** the admitted levels of a factor *)
+Lemma f0_L_spec g l : In l (f0_L g) <-> l < nlevels fb g /\ ~ In (FExclude g l) (fl_constraints fb).
+Proof.
+  unfold f0_L, nonexcluded_levels. rewrite filter_In, negb_true_iff. unfold all_levels. rewrite in_seq.
+  split; intros [H1 H2]; (split; [lia|]).
+  - intros Hin. assert (E : is_excluded_combination fb [(g, l)] = true).
+    { apply f0_excluded_spec. exists g, l. split; [exact Hin|]. rewrite alookup_cons, Nat.eqb_refl. reflexivity. }
+    congruence.
+  - apply not_true_is_false. intros E. apply f0_excluded_spec in E. destruct E as (f & l' & Hk & Hl).
+    rewrite alookup_cons in Hl. destruct (g =? f) eqn:Eg; [|discriminate]. apply Nat.eqb_eq in Eg.
+    inversion Hl; subst. contradiction.
+Qed.
+
+Lemma f0_L_nodup g : NoDup (f0_L g).
+Proof. unfold f0_L, nonexcluded_levels. apply NoDup_filter. unfold all_levels. apply seq_NoDup. Qed.
 
 (** level weights of crossed factors *)
 Lemma f0_level_weight f l : In f c -> level_weight fb f l = 1%Z.
@@ -200,19 +246,15 @@ Proof.
   apply nth_error_In in E. rewrite (f0_unit f0_unpack f lv Hf E). reflexivity.
 Qed.
 
-
-
 Lemma f0_combination_weight ci : In ci f0_instances -> combination_weight fb ci = 1%Z.
 Proof.
-  intros H. unfold f0_instances, instances_of in H. apply in_map_iff in H. destruct H as [ls [E _]]. subst ci.
+  intros H. unfold f0_instances in H. apply in_map_iff in H. destruct H as [ls [E _]]. subst ci.
   unfold combination_weight. apply prodZl_ones. intros x Hx. apply in_map_iff in Hx.
   destruct Hx as [p [E Hp]]. subst x. apply f0_level_weight. eapply in_combine_fst. exact Hp.
 Qed.
 
 Lemma f0_cweights : map (fun ci => (combination_weight fb ci * 1)%Z) f0_instances = map (fun _ => 1%Z) f0_instances.
 Proof. apply map_ext_in. intros ci H. rewrite f0_combination_weight by exact H. reflexivity. Qed.
-
-
 
 Lemma f0_main_factors : main_factors fb 0 = ROk c.
 Proof. unfold main_factors, no_crossings. rewrite (f0_crossings f0_unpack). reflexivity. Qed.
@@ -297,7 +339,6 @@ Proof.
   unfold f0_base. f_equal. f_equal; try reflexivity; try lia.
 Qed.
 
-
 (** ** solution counting *)
 Lemma f0_valid_sources : valid_sources fb f0_base = ROk (map (fun _ => [0]) f0_instances).
 Proof.
@@ -306,15 +347,10 @@ Proof.
   cbn [eb_mf f0_base]. rewrite f0_cnd. reflexivity.
 Qed.
 
-Lemma f0_nonexcluded f : nonexcluded_levels fb f = all_levels fb f.
-Proof. unfold nonexcluded_levels. apply filter_all. intros l _. rewrite f0_not_excluded. reflexivity. Qed.
-
-Definition f0_inds (first_n : Z) : list Z := map (fun f => (Z.of_nat (nlevels fb f) ^ first_n)%Z) f0_ubi.
+Definition f0_inds (first_n : Z) : list Z := map (fun f => (Z.of_nat (length (f0_L f)) ^ first_n)%Z) f0_ubi.
 Definition f0_perms (first_n : nat) : Z := CombSpec.ffact (Z.of_nat f0_q) first_n.
 Definition f0_shape (first_n : nat) : shape :=
   {| sh_cross := f0_perms first_n; sh_combs := map (fun _ => 1%Z) f0_instances; sh_inds := f0_inds (Z.of_nat first_n) |}.
-
-
 
 Lemma f0_perms_div (first_n : nat) : first_n <= f0_q ->
   (fact_nat f0_q / fact_nat (f0_q - first_n))%Z = f0_perms first_n.
@@ -336,10 +372,8 @@ Proof.
                    = map (fun _ => 1%Z) f0_instances).
   { rewrite map_map. reflexivity. }
   rewrite Hcombs. cbn [eb_mf f0_base]. rewrite f0_ubi_eq.
-  assert (Hinds : map (fun f => (Z.of_nat (length (nonexcluded_levels fb f)) ^ Z.of_nat first_n)%Z) f0_ubi
-                  = f0_inds (Z.of_nat first_n)).
-  { unfold f0_inds. apply map_ext. intros f. rewrite f0_nonexcluded. unfold all_levels. rewrite seq_length. reflexivity. }
-  rewrite Hinds.
+  change (map (fun f => (Z.of_nat (length (nonexcluded_levels fb f)) ^ Z.of_nat first_n)%Z) f0_ubi)
+    with (f0_inds (Z.of_nat first_n)).
   destruct (Z.of_nat first_n =? Z.of_nat f0_q)%Z eqn:E.
   - apply Z.eqb_eq in E. apply Nat2Z.inj in E. subst first_n. cbn [rbind andb].
     rewrite prodZl_ones by (intros x Hx; apply in_map_iff in Hx; destruct Hx as [? [? _]]; congruence).
@@ -363,7 +397,7 @@ Definition f0_rounds : nat := fl_trials fb / f0_q.
 
 Definition f0_enum : enumerator :=
   {| en_base := f0_base; en_valid := map (fun _ => [0]) f0_instances;
-     en_ind_levels := map (fun f => (f, all_levels fb f)) f0_ubi;
+     en_ind_levels := map (fun f => (f, f0_L f)) f0_ubi;
      en_count := (f0_perms f0_q * prodZl (f0_inds (Z.of_nat f0_q)))%Z; en_shape := f0_shape f0_q; en_memo := [];
      en_leftover := Z.of_nat f0_leftover;
      en_lcount := if f0_leftover =? 0 then 1%Z else (f0_perms f0_leftover * prodZl (f0_inds (Z.of_nat f0_leftover)))%Z;
@@ -383,12 +417,10 @@ Proof.
   rewrite Hmod.
   assert (Hlo : f0_leftover < f0_q) by (unfold f0_leftover; apply Nat.mod_upper_bound; lia).
   unfold f0_enum. destruct (f0_leftover =? 0) eqn:E.
-  - apply Nat.eqb_eq in E. rewrite E. cbn [Z.of_nat Z.eqb rbind]. cbn [eb_mf f0_base]. rewrite f0_ubi_eq.
-    f_equal. f_equal. apply map_ext. intros f. rewrite f0_nonexcluded. reflexivity.
+  - apply Nat.eqb_eq in E. rewrite E. cbn [Z.of_nat Z.eqb rbind]. cbn [eb_mf f0_base]. rewrite f0_ubi_eq. reflexivity.
   - apply Nat.eqb_neq in E.
     replace (Z.of_nat f0_leftover =? 0)%Z with false by (symmetry; apply Z.eqb_neq; lia).
-    rewrite (f0_count_solutions f0_leftover) by lia. cbn [rbind eb_mf f0_base]. rewrite f0_ubi_eq.
-    f_equal. f_equal. apply map_ext. intros f. rewrite f0_nonexcluded. reflexivity.
+    rewrite (f0_count_solutions f0_leftover) by lia. cbn [rbind eb_mf f0_base]. rewrite f0_ubi_eq. reflexivity.
 Qed.
 
 End F0.
